@@ -87,3 +87,31 @@ package stcp
 //@   requires swf(s)
 //@   ensures #closed s.sendQ.closed
 //@   modifies q.Q.closed, list.List.lmem, list.List.lcnt, list.Element.lrk, list.Element.Value
+//
+// ---- accept loop: a connection is handed to the session manager only while the count is below the maximum; a
+// surplus connection is closed at once ----
+//@ ghost curCount int32
+//@ ghost acceptMax int32
+//@ ghost handedOver int
+//@ func IConnMgr.ConnCount
+//@   trusted interface contract: the current number of live sessions (ghost curCount; sessions that end concurrently only lower it)
+//@   ensures result == curCount
+//@   modifies
+//@ func IConnMgr.Do
+//@   trusted interface contract: starts a session for the connection (count + 1)
+//@   requires #belowmax curCount < acceptMax
+//@   ensures handedOver == old(handedOver) + 1
+//@   modifies handedOver, curCount
+//@ func ITemporary.Temporary
+//@   trusted interface contract
+//@   modifies
+//@ func _SrvStartOpt.Logger
+//@   trusted logging helper
+//@   modifies
+//@ func Server.loopAccept
+//@   requires s != nil && s.ln != nil && s.ch != nil && cnf != nil && acceptMax == cnf.maxConn && cnf.acceptDelay < 2305843009213693952 && cnf.acceptMaxDelay < 2305843009213693952 && cnf.acceptMaxRetry < 2305843009213693952
+//@   modifies everything()
+//@   loop 1
+//@     invariant s != nil && s.ln != nil && s.ch != nil && cnf != nil && acceptMax == cnf.maxConn && cnf.acceptDelay < 2305843009213693952 && cnf.acceptMaxDelay < 2305843009213693952 && cnf.acceptMaxRetry < 2305843009213693952
+//@     invariant #backoff 0 <= accRetryCount && accRetryCount <= max(0, cnf.acceptMaxRetry) && accDelay <= max(0, max(cnf.acceptDelay, cnf.acceptMaxDelay))
+//@     invariant #closedorhanded connCloses + handedOver >= old(connCloses) + old(handedOver)
